@@ -129,7 +129,7 @@ def step (s : S) (line : String) : S × String :=
     | some d, some off, some L =>
       if off > s.L + 1 then (s, "bad-op") else
       match a.textizeN d off L 0 [] with
-      | some w => (s, s!"ok {hx (w ++ List.replicate (L - w.length) 170)}")
+      | some w => (s, s!"ok {hx (w ++ List.replicate (L + 1 - w.length) 170)}")
       | none => (s, "fault")
     | _, _, _ => (s, "bad-op")
   else if op == "dsqnull" then ({ s with d := none, L := 0 }, "ok")
